@@ -482,6 +482,15 @@ def c16_configs(tier, kind="time-c16", tz="utc"):
     return out
 
 
+def c16_history_configs(tier):
+    """the SAME TimeScale object: domain A, ticks(m), domain B of a very different span, ticks(m) again"""
+    out = []
+    pairs = [(17, 14), (11, 17), (3, 16), (16, 2)] if tier == "quick" else [(a, b) for a in (2, 8, 11, 14, 16, 17) for b in (1, 5, 9, 14, 16, 17) if a != b]
+    for i, (w1, w2) in enumerate(pairs):
+        out.append(dict(name="c16-history-m10-win%02d-then-win%02d" % (w1, w2), kind="time-c16", m=10, win=w2, prev_win=w1, orient=1 if i % 2 else -1, anchor=ANCHORS[i % len(ANCHORS)], prev_anchor=ANCHORS[(i + 3) % len(ANCHORS)], tz="utc", weight=4))
+    return out
+
+
 def _domain_for(sink, cfg, mk):
     m, w = cfg["m"], cfg["win"]
     lo, hi = span_windows(m)[w]
@@ -520,7 +529,15 @@ def c16(sink, cfg, mk, num):
         return
     a, b = dom
     m = cfg["m"]
-    ts = TimeScale().domain([a, b] if cfg["orient"] > 0 else [b, a])
+    ts = TimeScale()
+    if cfg.get("prev_win") is not None:
+        # history on one scale object: an earlier domain of a very different span was ticked with the same count
+        lo0, hi0 = span_windows(m)[cfg["prev_win"]]
+        p0 = _dt.datetime.fromisoformat(cfg["prev_anchor"])
+        p1 = p0 + _dt.timedelta(milliseconds=(lo0 + hi0) // 2)
+        ts.domain([p0, p1])
+        ts.ticks(m)
+    ts.domain([a, b] if cfg["orient"] > 0 else [b, a])
     try:
         T = ts.ticks(m)
     except Exception as ex:
